@@ -216,6 +216,7 @@ def _run_pdy(ctx):
     from .common import RuleCtx as _RC2
     _rc2 = _RC2(ctx)
     _c17._sec_intwidth(_rc2, "Y-int", dict(_c17.INT_SHAPES, **_c16.INT_SHAPES))
+    _jit_float_only(ctx)
     ma = MutationAnalysis(ctx.repo, ctx.linker)
     res.analysed["mutation_fixpoint_rounds"] = ma.rounds
     res.analysed["summaries_writing"] = {q: s.writes for q, s in ma.summaries.items() if s.writes}
@@ -487,3 +488,69 @@ def _first_uninit_read(mod, fi, creation, X: str):
             return None
         cur = parent
     return None
+
+
+# numpy functions numba's nopython mode implements for floating-point / complex arrays only (they go through BLAS / LAPACK): an
+# integer-typed call does not compile (TypingError at the first call with that type), so the int64 representation of a curve
+# raises where the float64 one returns a value
+JIT_FLOAT_ONLY = {"dot", "vdot", "matmul", "inner", "outer", "kron", "trace"}
+
+
+def _jit_float_only(ctx):
+    res = ctx.result
+    res.rule("Y-jit", "guard only: no numba nopython function calls a numpy routine that numba implements for floating-point arrays only (np.dot, np.vdot, np.matmul / @, "
+                      "np.linalg.*) on values that inherit the dtype of an argument: the int64 representation of the input would not compile")
+    n = 0
+    for mod in ctx.repo.package_modules():
+        for fi in mod.all_functions:
+            decos = [norm_text(d) for d in fi.node.decorator_list]
+            if not any(d.startswith(("jit", "njit", "numba.jit", "numba.njit", "nb.jit", "nb.njit")) for d in decos):
+                continue
+            n += 1
+            params = {a.arg for a in fi.node.args.args}
+            # names whose dtype comes from an argument: the arguments and anything computed from them without a float-producing step
+            floaty = set()
+
+            def inherits(e) -> bool:
+                if isinstance(e, ast.Name):
+                    return e.id in params or (e.id in derived and e.id not in floaty)
+                if isinstance(e, ast.BinOp):
+                    if isinstance(e.op, ast.Div):
+                        return False
+                    return inherits(e.left) or inherits(e.right)
+                if isinstance(e, ast.UnaryOp):
+                    return inherits(e.operand)
+                if isinstance(e, ast.Subscript):
+                    return inherits(e.value)
+                if isinstance(e, ast.Call):
+                    f = norm_text(e.func)
+                    if f.split(".")[-1] in ("sqrt", "log", "exp", "mean", "float64", "astype", "true_divide", "divide"):
+                        return False
+                    return any(inherits(a) for a in e.args)
+                return False
+            derived = set()
+            for _round in range(3):
+                for st in ast.walk(fi.node):
+                    if isinstance(st, ast.Assign) and len(st.targets) == 1 and isinstance(st.targets[0], ast.Name):
+                        if inherits(st.value):
+                            derived.add(st.targets[0].id)
+                        else:
+                            floaty.add(st.targets[0].id)
+            bad = []
+            for c in ast.walk(fi.node):
+                if isinstance(c, ast.Call):
+                    f = norm_text(c.func)
+                    parts = f.split(".")
+                    if parts[0] in ("np", "numpy") and (parts[-1] in JIT_FLOAT_ONLY or (len(parts) >= 3 and parts[1] == "linalg")) and any(inherits(a) for a in c.args):
+                        bad.append((c, f))
+                elif isinstance(c, ast.BinOp) and isinstance(c.op, ast.MatMult) and (inherits(c.left) or inherits(c.right)):
+                    bad.append((c, "@"))
+            for c, f in bad:
+                res.violation("Y-jit", fi.module, fi.name, c,
+                              f"{f} inside a numba nopython function on a value that inherits the dtype of an argument: numba implements it for floating-point arrays only, "
+                              "so integer-typed input raises a TypingError where float64 input returns a value", norm_text(c)[:100],
+                              "an element-wise formulation (np.sum(np.square(..))) or an explicit float conversion", construct=f"jit float-only {f}")
+            if not bad:
+                res.ok("Y-jit", fi.qualname, "no float-only numpy routine applied to argument-typed values inside the nopython function")
+    if n == 0:
+        res.note("Y-jit: no numba-jitted function in the package")
